@@ -260,6 +260,7 @@ func (g *generator) generateFlow(file *file, f *flow, w io.Writer, addImports ma
 	}); err != nil {
 		return err
 	}
+	g.requirePredeclared(b.Bytes())
 	if err := g.hiddenPackages(); err != nil {
 		return err
 	}
@@ -267,7 +268,7 @@ func (g *generator) generateFlow(file *file, f *flow, w io.Writer, addImports ma
 	// declares no identifiers of its own, so that names in those expressions
 	// (e.g. an "err" variable of the enclosing function) keep referring to
 	// the user's variables rather than to the named result below.
-	if _, err := io.WriteString(w, "func() error {\n"); err != nil {
+	if _, err := io.WriteString(w, _wrapperOpen); err != nil {
 		return err
 	}
 
@@ -281,7 +282,7 @@ func (g *generator) generateFlow(file *file, f *flow, w io.Writer, addImports ma
 	if err := prologueTmpl.ExecuteTemplate(w, _paramExprTmpl, paramExprs(exprs)); err != nil {
 		return err
 	}
-	if _, err := io.WriteString(w, "return func() (err error) {\n"); err != nil {
+	if _, err := io.WriteString(w, _closureOpen); err != nil {
 		return err
 	}
 	if _, err := w.Write(b.Bytes()); err != nil {
@@ -368,6 +369,28 @@ func (g *generator) requireVisible(name, importPath string) {
 		g.fset.Position(g.usePos), name, g.fset.Position(obj.Pos()), importPath, name))
 }
 
+// The function literals that the code generated for a directive is wrapped
+// in: the outer one evaluates the arguments of the directive, the inner one
+// is the body rendered from the templates.
+const (
+	_wrapperOpen = "func() error {\n"
+	_closureOpen = "return func() (err error) {\n"
+)
+
+// requirePredeclared notes an error for each predeclared identifier used by
+// body, the code rendered for the directive being generated, or by the
+// function literals it is wrapped in, that refers to something else where
+// the directive is written: a variable called new or len, say.
+func (g *generator) requirePredeclared(body []byte) {
+	for _, src := range [][]byte{[]byte(_wrapperOpen + _closureOpen), body} {
+		for _, name := range usedPredeclared(src) {
+			if err := hidesPredeclared(name, g.pkg, g.usePos, false /* packageScope */, g.fset); err != nil {
+				g.noteHidden(name, err)
+			}
+		}
+	}
+}
+
 // noteHidden records err, to be reported by hiddenPackages, for name.
 func (g *generator) noteHidden(name string, err error) {
 	if g.hidden == nil {
@@ -396,8 +419,8 @@ func (g *generator) requireNameable(t types.Type) {
 	}
 }
 
-// hiddenPackages reports the errors noted by requireVisible and
-// requireNameable, in a stable order.
+// hiddenPackages reports the errors noted by requireVisible, requireNameable
+// and requirePredeclared, in a stable order.
 func (g *generator) hiddenPackages() error {
 	names := make([]string, 0, len(g.hidden))
 	for name := range g.hidden {
